@@ -20,7 +20,7 @@ LEVEL = 'exploration'
 TIERS = {"quick": 30000, "thorough": 1200000}
 BUDGET = {'quick': 150, 'thorough': 1500}
 RULE = ('seeded plans: universe descriptor + one abstract value + 2-5 replicas, each with a construction route '
-        '(canonical | permuted order | explicit/implicit DEFAULTs | native Python arguments | every scalar slot assigned a decoy first and then the target | decode of a BER form the encoder produces, incl. REAL bases 8/16 | decode of an equivalent BER variant: long-form lengths, indefinite lengths, constructed strings, other TRUE octets | clone of another '
+        '(canonical | permuted order | explicit/implicit DEFAULTs | native Python arguments | every scalar slot assigned a decoy first and then the target | scalars given as objects of a narrower subtype, DEFAULTs explicit | decode of a BER form the encoder produces, incl. REAL bases 8/16 | decode of an equivalent BER variant: long-form lengths, indefinite lengths, constructed strings, other TRUE octets | clone of another '
         'route) and 0-6 interleaved read-only operations; non-trivial: at least two replicas reached the value by different routes and '
         'both encoders accepted it; distinct = distinct plan digests among those')
 ASSUMPTIONS = [
@@ -33,7 +33,7 @@ STUB = ['replica histories (construction routes and read-only operations)']
 
 ROUTES = ['canonical', 'permuted', 'permuted', 'defaults-explicit', 'defaults-implicit', 'native-args',
           'decoded:ber', 'decoded:ber-indef', 'decoded:ber-chunk:2', 'decoded:ber-indef-chunk:3', 'decoded:der', 'decoded:cer',
-          'decoded:variant', 'decoded:variant', 'decoded:realbase', 'clone', 'inplace', 'inplace', 'overwrite']
+          'decoded:variant', 'decoded:variant', 'decoded:realbase', 'clone', 'inplace', 'inplace', 'overwrite', 'subtyped']
 # read-only uses that may be interleaved *during* a construction (none of them is documented to instantiate)
 MID_READS = ['der', 'cer', 'ber', 'prettyPrint', 'str', 'iter', 'eq', 'len', 'in', 'isValue']
 READS = ['der', 'cer', 'ber', 'prettyPrint', 'str', 'iter', 'eq', 'len', 'in', 'isValue', 'values', 'getitem', 'getitem', 'items', 'deep_read']
@@ -91,7 +91,7 @@ def _gen_catalogue(r):
     desc, values = r.choice(CATALOGUE)
     reps = []
     routes = ['canonical', 'permuted', 'permuted', 'defaults-explicit', 'defaults-implicit', 'native-args',
-              'decoded:ber', 'decoded:ber-indef', 'decoded:der', 'clone', 'inplace', 'inplace', 'overwrite']
+              'decoded:ber', 'decoded:ber-indef', 'decoded:der', 'clone', 'inplace', 'inplace', 'overwrite', 'subtyped']
     for i in range(r.randrange(2, 6)):
         rep = {'route': r.choice(routes), 'perm': r.randrange(1 << 30),
                'reads': [[r.choice(READS), r.randrange(4)] for _ in range(r.choice([0, 0, 1, 3]))]}
@@ -231,11 +231,33 @@ def build_overwrite(schema, desc, v, rnd):
     return U.build_value(schema, desc, v)
 
 
+def _narrowed(sub, d, x, rnd):
+    """The value as an object of a NARROWER subtype of the component type (Percent(50) into an INTEGER
+    field): same abstract value, another type object behind it."""
+    C = U.p.constraint
+    k = d['k']
+    try:
+        if k in ('INTEGER', 'ENUMERATED') and isinstance(x, int) and not isinstance(x, bool):
+            extra = C.ValueRangeConstraint(x - rnd.choice([0, 1, 50]), x + rnd.choice([0, 1, 50]))
+        elif k == 'OCTETSTRING':
+            n = len(x) // 2
+            extra = C.ValueSizeConstraint(max(0, n - rnd.choice([0, 1])), n + rnd.choice([0, 3]))
+        elif k in U.CHARS:
+            extra = C.ValueSizeConstraint(max(0, len(x) - rnd.choice([0, 1])), len(x) + rnd.choice([0, 3]))
+        else:
+            return U.build_value(sub, d, x)
+        return sub.subtype(subtypeSpec=extra).clone(U.prim_arg(d, x))
+    except Exception:
+        return U.build_value(sub, d, x)
+
+
 def build_route(schema, desc, v, route, rnd):
     """Build the value of `desc` along `route`.  rnd is a Random seeded from the plan."""
     if route == 'overwrite':
         return build_overwrite(schema, desc, v, rnd)
     k = desc['k']
+    if route == 'subtyped' and k in U.PRIMS and rnd.random() < 0.8:
+        return _narrowed(schema, desc, v, rnd)
     if k in U.PRIMS or k == 'ANY':
         if route == 'native-args' and k in U.PRIMS:
             return schema.clone(U.prim_arg(desc, v))
@@ -248,7 +270,7 @@ def build_route(schema, desc, v, route, rnd):
         for f in fields:
             if f['n'] in v:
                 present.append((f, v[f['n']]))
-            elif f['opt'] == 'D' and route == 'defaults-explicit':
+            elif f['opt'] == 'D' and route in ('defaults-explicit', 'subtyped'):
                 present.append((f, f['dv']))
         if route == 'defaults-implicit':
             present = [(f, x) for f, x in present if not (f['opt'] == 'D' and x == f['dv'])]
@@ -399,6 +421,8 @@ def make_replica(schema, desc, v, rep):
                 U.absval_canon(src) != U.absval_canon(U.build_value(schema, desc, v)):
             raise W.Skip('decoded-source-not-faithful')     # C01 territory, see execute()
         return src.clone(cloneValueFlag=True) if isinstance(src, U.p.base.ConstructedAsn1Type) else src.clone()
+    if route == 'subtyped' and desc['k'] in U.PRIMS:
+        route = 'canonical'      # a top-level object of a narrower type is not "a value of the same type"
     return build_route(schema, desc, v, route, rnd)
 
 
